@@ -408,9 +408,12 @@ func (r *c10Run) exec(op string) error {
 			ref = append(ref, t)
 		}
 		sort.Strings(ref)
+		// the table's CONTENT is the model's abstraction function (compared through `tok dump` below: a difference is a
+		// broken correspondence). The property only speaks about which tokens authenticate — how the store represents
+		// them (plain, hashed) is not an oracle matter; the oracle checks what the statement implies for the table's size.
 		r.c.R.OracleChecked++
-		if strings.Join(rows, " ") != strings.Join(ref, " ") {
-			r.fail("the tokens table differs from the reference set", strings.Join(ref, " "), strings.Join(rows, " "), "c10-table-differs-from-set")
+		if len(rows) != len(ref) {
+			r.fail("the number of rows of the tokens table differs from the number of issued, unrevoked tokens", fmt.Sprint(len(ref)), fmt.Sprint(len(rows)), "c10-table-size-differs-from-set")
 		}
 		for _, t := range rows {
 			words = append(words, c09Hex(t))
@@ -632,6 +635,9 @@ func runC10(c *Ctx) error {
 		return err
 	}
 	if err := c10SpaceProbe(c, l, rng); err != nil {
+		return err
+	}
+	if err := c10RotatedRestart(c, l, rng); err != nil {
 		return err
 	}
 	for _, kn := range lib.KnownFor(c.Known, "C10") {
